@@ -8,6 +8,7 @@ import (
 	"fmt"
 	"reflect"
 	"sync"
+	"sync/atomic"
 	"testing"
 	"time"
 
@@ -162,7 +163,7 @@ type Param struct {
 	Fields []FieldSpec `json:"fields,omitempty"` // shape 10: reflect.StructOf
 }
 
-var shapeNames = []string{"tagged", "untagged", "dash-or-empty-tag", "unexported-field", "nested", "pointer-to-tagged", "embedded-action-context", "action-context-pointer-field", "map-non-struct", "string-non-struct", "struct-of", "nil-able-fields"}
+var shapeNames = []string{"tagged", "untagged", "dash-or-empty-tag", "unexported-field", "nested", "pointer-to-tagged", "embedded-action-context", "action-context-pointer-field", "map-non-struct", "string-non-struct", "struct-of", "nil-able-fields", "local-type-P-1", "local-type-P-2"}
 
 func (p Param) s(i int) string {
 	if i < len(p.S) {
@@ -213,6 +214,10 @@ func (p Param) build() (interface{}, map[string]interface{}) {
 		return map[string]int64{"x": p.i(0)}, map[string]interface{}{}
 	case 9:
 		return p.s(0), map[string]interface{}{}
+	case 12:
+		return localP1(p)
+	case 13:
+		return localP2(p)
 	case 11:
 		// tagged fields of nil-able kinds, each nil or set: a nil one is still a tagged parameter (JSON null)
 		v := shapeNilable{N: p.s(1)}
@@ -283,6 +288,26 @@ func (p Param) build() (interface{}, map[string]interface{}) {
 	panic("shape")
 }
 
+// Two different parameter types that print the same (function-local types both named P): what is known
+// about one type must not be applied to the other.
+func localP1(p Param) (interface{}, map[string]interface{}) {
+	type P struct {
+		OrderID string `tccParam:"orderId"`
+		Amount  int64  `tccParam:"amount"`
+	}
+	return P{p.s(0), p.i(0)}, map[string]interface{}{"orderId": p.s(0), "amount": p.i(0)}
+}
+
+func localP2(p Param) (interface{}, map[string]interface{}) {
+	type P struct {
+		Plain string
+		Sku   string  `tccParam:"sku"`
+		Count float64 `tccParam:"count"`
+		Note  bool    `tccParam:"note"`
+	}
+	return P{p.s(1), p.s(0), p.f(0), p.b(0)}, map[string]interface{}{"sku": p.s(0), "count": p.f(0), "note": p.b(0)}
+}
+
 // ---- case ------------------------------------------------------------------------------------
 
 type Step struct {
@@ -309,6 +334,9 @@ type Case struct {
 	// Reregister: bit i set = before the transaction, action i's name is registered again with a new
 	// service instance (a re-created service object): try and phase two must reach the new instance
 	Reregister int `json:"reregister,omitempty"`
+	// LateAction: at the end an action with a new name is registered and gets a phase-two request while its
+	// registration is still in flight
+	LateAction bool `json:"late_action,omitempty"`
 }
 
 func canon(v interface{}) string {
@@ -597,6 +625,42 @@ func execute(c Case) *pt.Failure {
 			}
 		}
 	}
+	if c.LateAction {
+		if fl := lateAction(); fl != nil {
+			return fl
+		}
+	}
+	return nil
+}
+
+var lateSeq int64
+
+// lateAction: an action is registered while the process is already running, and the coordinator delivers a
+// phase-two request for it as soon as it has received the registration, before its reply reaches the client
+// (a coordinator that redelivers the pending branches of a restarted participant). The action must be invoked.
+func lateAction() *pt.Failure {
+	name := fmt.Sprintf("c05-late-%d", atomic.AddInt64(&lateSeq, 1))
+	la := &action{name: name}
+	var status int8 = -1
+	answered := false
+	tc.Script(message.RegisterRMRequest{}.GetTypeCode(), faketc.Action{Before: func(m message.RpcMessage) {
+		req := message.BranchCommitRequest{AbstractBranchEndRequest: message.AbstractBranchEndRequest{Xid: tc.Addr + ":555", BranchId: 9, BranchType: branch.BranchTypeTCC, ResourceId: name, ApplicationData: []byte(`{"actionContext":{"k":1}}`)}}
+		if resp, ok := tc.Request(sess, req, 3*time.Second); ok {
+			if r, ok := resp.Body.(message.BranchCommitResponse); ok {
+				status, answered = int8(r.BranchStatus), true
+			}
+		}
+	}})
+	if _, err := tcc.NewTCCServiceProxy(la); err != nil {
+		return pt.Failf("C05/late-registration-refused", "registering action %q failed: %v", name, err)
+	}
+	tc.Quiesce(2 * time.Second)
+	la.mu.Lock()
+	n := len(la.commits)
+	la.mu.Unlock()
+	if n != 1 || !answered || status != int8(branch.BranchStatusPhasetwoCommitted) {
+		return pt.Failf("C05/phase2-during-registration", "a commit request delivered while action %q was being registered: invocations=%d answered=%v status=%d", name, n, answered, status)
+	}
 	return nil
 }
 
@@ -605,7 +669,7 @@ func execute(c Case) *pt.Failure {
 var strs = []string{"", "a", "hello", "中文", `q"uo\te`, "{\"x\":1}", "123", "\u0000"}
 
 func drawParam(t *rapid.T) Param {
-	p := Param{Shape: rapid.IntRange(0, 11).Draw(t, "shape")}
+	p := Param{Shape: rapid.IntRange(0, 13).Draw(t, "shape")}
 	p.S = rapid.SliceOfN(rapid.OneOf(rapid.SampledFrom(strs), rapid.StringN(0, 8, 24)), 2, 4).Draw(t, "s")
 	p.I = rapid.SliceOfN(rapid.OneOf(rapid.SampledFrom([]int64{0, 1, -1, 1 << 53, 1<<53 + 1, 1<<63 - 1, -1 << 63}), rapid.Int64()), 1, 4).Draw(t, "i")
 	p.F = rapid.SliceOfN(rapid.OneOf(rapid.SampledFrom([]float64{0, 1.5, -2.25, 1e300, 5e-324}), rapid.Float64Range(-1e9, 1e9)), 1, 4).Draw(t, "f")
@@ -638,6 +702,7 @@ func drawCase(t *rapid.T) Case {
 		}
 		c.Phase2 = append(c.Phase2, p)
 	}
+	c.LateAction = rapid.IntRange(0, 7).Draw(t, "lateAction") == 0
 	if rapid.IntRange(0, 5).Draw(t, "reregister") == 0 {
 		c.Reregister = rapid.IntRange(1, 7).Draw(t, "reregisterMask")
 	}
